@@ -51,6 +51,9 @@ def build_layout(base: Path):
     os.symlink(out, S / 'lkout')
     os.symlink('k2', S / 'lksib')
     os.symlink(base / 'none', S / 'ldang')
+    (base / 'S2' / 'res').mkdir(parents=True)          # a sibling whose name has the storage directory's name as a prefix
+    (base / 'S2' / 'res' / 'p').write_text('p')
+    os.symlink(base / 'S2' / 'res', S / 'lkpre')
 
 
 def snapshot(base: Path) -> dict:
